@@ -124,6 +124,8 @@ def run_property(prop, spec, tier, seed, only=None, jobs=10):
         ths.append(th)
     for th in ths:
         th.join()
+    if model == "events_once" and not only:
+        validate_sequential(res, mir_path, prop, spec, tier, jobs)
     fnset = set()
     for (name, wargs), d in zip(scs, results):
         v = d.get("verdict")
@@ -155,6 +157,70 @@ def run_property(prop, spec, tier, seed, only=None, jobs=10):
             res["noverdict"].append((name, "%s: %s" % (v, str(d.get("detail"))[:400])))
     res["functions"] += sorted(fnset)
     return res
+
+
+def validate_sequential(res, mir_path, prop, spec, tier, jobs):
+    """Translator validation against the implementation: every scenario, with the operations run one
+    at a time in every order, gives the same observable tuple in the model (pinned schedule) and on the
+    real code (native/events_once_seq, public API, counting payloads and wakers)."""
+    import shutil
+    from mirproto import events_once_model as EO
+    nd = os.path.join(VERIF, "native", "events_once_seq")
+    tdir = os.path.join(VERIF, ".cache", "native", "events_once_seq")
+    try:
+        shutil.copyfile(os.path.join(M.REPO, "Cargo.lock"), os.path.join(nd, "Cargo.lock"))
+        env = dict(os.environ)
+        env["CARGO_NET_OFFLINE"] = "true"
+        env.pop("RUSTFLAGS", None)
+        b = subprocess.run(["cargo", "build", "-q", "--offline", "--target-dir", tdir], cwd=nd, env=env, capture_output=True, text=True, timeout=1200)
+        exe = os.path.join(tdir, "debug", "folo_verif_events_once_seq")
+        if b.returncode != 0 or not os.path.exists(exe):
+            res["noverdict"].append(("sequential-validation", "native build failed: " + b.stderr[-400:]))
+            return
+    except Exception as e:  # noqa: BLE001
+        res["noverdict"].append(("sequential-validation", str(e)[-400:]))
+        return
+    progs = EO.RECEIVER_PROGRAMS_QUICK if tier == "quick" else EO.RECEIVER_PROGRAMS_THOROUGH
+    cases = []
+    for s_ in EO.SENDER_OPS:
+        for r in progs:
+            for pos in range(len(r) + 1):
+                order = ["R"] * pos + ["S"] + ["R"] * (len(r) - pos)
+                cases.append((s_, r, order))
+    out = [None] * len(cases)
+    sem = threading.Semaphore(jobs)
+
+    def go(i, s_, r, order):
+        with sem:
+            d = worker(["scenario", "--mir", mir_path, "--prop", prop, "--sender", s_, "--recv", ",".join(r), "--pin", ",".join(order), "--kcap", "96", "--timeout", "600"], 1500)
+            try:
+                n = subprocess.run([exe, s_, ",".join(r), ",".join(order)], capture_output=True, text=True, timeout=60)
+                nat = json.loads(n.stdout.strip().splitlines()[-1]) if n.returncode == 0 else dict(error="native rc=%s %s" % (n.returncode, n.stderr[-200:]))
+            except Exception as e:  # noqa: BLE001
+                nat = dict(error=str(e))
+            out[i] = (d, nat)
+    ths = [threading.Thread(target=go, args=(i,) + c) for i, c in enumerate(cases)]
+    for th in ths:
+        th.start()
+    for th in ths:
+        th.join()
+    keys = ("outcome", "delivered", "vdrops", "clones", "wdrops", "woken", "last_pending", "recv_gone", "sender_done")
+    ok = 0
+    for (s_, r, order), (d, nat) in zip(cases, out):
+        name = "S:%s|R:%s order %s" % (s_, ",".join(r), "".join(order))
+        if d.get("verdict") != "pinned" or "error" in nat:
+            res["noverdict"].append(("sequential-validation " + name, "model: %s / native: %s" % (d.get("verdict"), nat)))
+            continue
+        fin = d["final"]
+        diff = {k: (fin.get(k), nat.get(k)) for k in keys if fin.get(k) != nat.get(k)}
+        if diff or fin.get("bad") or fin.get("race"):
+            res["noverdict"].append(("sequential-validation " + name, "model and real code disagree (model, native): %s bad=%s race=%s" % (diff, fin.get("bad"), fin.get("race"))))
+        else:
+            ok += 1
+    res["totals"]["traces_validated"] += ok
+    res["samples"].append(dict(engine="mirproto", kind="sequential translation validation", cases=len(cases), agreeing=ok,
+                               compared=list(keys), example=dict(scenario="S:%s|R:%s" % (cases[0][0], ",".join(cases[0][1])), order=cases[0][2], model=out[0][0].get("final"), native=out[0][1])))
+    print("[mirproto] sequential validation against the real code: %d/%d orders agree" % (ok, len(cases)), flush=True)
 
 
 def first_blame(d):
